@@ -80,20 +80,27 @@ def ints(t):
     return [int(round(float(v))) for v in t.detach().reshape(-1)]
 
 
-def dict_state(d, orig):
+def dict_state(d, orig, inner):
     out = {}
     for k in sorted(d):
         v = d[k]
-        out[k] = {"type": type(v).__name__, "same": v is orig[k]}
+        # an entry the user wrapped as UserFunction himself: still the same object AND still wrapping the same python function
+        ok_inner = (getattr(v, "fun", None) is inner[k]) if k in inner else True
+        out[k] = {"type": type(v).__name__, "same": (v is orig[k]) and ok_inner}
     return {"keys": sorted(d), "items": out}
 
 
 def run_one(s):
-    dicts, origs = [], []
-    for dd in s["dicts"]:
+    dicts, origs, inners = [], [], []
+    for di, dd in enumerate(s["dicts"]):
         d = {k: mk_data_fn(fid) for k, fid in dd.items()}
+        inner = {}
+        if di == 1:          # the second dictionary holds functions the user already wrapped as UserFunction objects
+            inner = dict(d)
+            d = {k: tp.utils.UserFunction(f) for k, f in d.items()}
         dicts.append(d)
         origs.append(dict(d))
+        inners.append(inner)
     conds, logs = {}, {}
     ev = []
     bases = [Cyc(SDRAWS[0]), Cyc(SDRAWS[1]), Cyc(SDRAWS[2])]
@@ -170,7 +177,7 @@ def run_one(s):
                     e["ncalls"] = len(log)
                     if log:
                         e["recv"] = {k: ints(v) if isinstance(v, torch.Tensor) else [int(round(float(v)))] for k, v in log[-1].items()}
-        e["dicts"] = [dict_state(d, o) for d, o in zip(dicts, origs)]
+        e["dicts"] = [dict_state(d, o, i_) for d, o, i_ in zip(dicts, origs, inners)]
         e["scounts"] = [b.count for b in bases]
         ev.append(e)
     return {"events": ev}
